@@ -1,9 +1,23 @@
-"""C12 — runtime property; see harness/rt.py"""
-from . import rt
+"""C12 — runtime lifecycle; see harness/rt.py.  The exclusivity guard kernel (guard.py::exclusive_call) is
+additionally tied by translation: gen/Gen_guard.v is regenerated from the source on every run and
+props/C12_tie.v proves its contract for all lock states and all ways the guarded call can end."""
+import os
+
+from . import common, rt
 
 ID = "C12"
 COQ_TARGETS = ["props/C12.vo"]
+TIE_TARGETS = ["props/C12_tie.vo"]
+
+
+def regen(chk):
+    from py2coq import units
+    res = units.regen(common.REPO, os.path.join(common.COQDIR, "gen"), ["Gen_guard.v"])
+    chk.coverage["translator"] = res
+    bad = [v for v in res.values() if v != "ok"]
+    if bad:
+        raise RuntimeError(bad[0])
 
 
 def main(tier=None, seed=None, replay=None):
-    return rt.main(ID, COQ_TARGETS, tier=tier, seed=seed, replay=replay)
+    return rt.main(ID, COQ_TARGETS, tier=tier, seed=seed, replay=replay, tie_targets=TIE_TARGETS, regen=regen)
